@@ -41,6 +41,16 @@ def seed_job(sd):
         if not ok:
             return tag, "PATCH-FAILS", ""
         prop = meta["breaks_property"]
+        if meta.get("detected_by_target") is False:
+            # a recorded miss of the target property's check (DESIGN.md 9.7):
+            # the change must still be reported by the checks that did catch it
+            others = [x.split(":")[0] for x in meta["detected_by"]]
+            if not others:
+                return tag, "ok", "recorded miss (no check reports it)"
+            rc, out = check(others[0], d, tag)
+            if rc == 1:
+                return tag, "ok", "recorded miss of %s; %s rc=1" % (prop, others[0])
+            return tag, "MISSED", "%s rc=%d" % (others[0], rc)
         rc, out = check(prop, d, tag)
         expect_err = any("ANALYSIS-ERROR" in x for x in meta["detected_by"])
         if rc == 1 or (expect_err and rc == 2):
@@ -82,7 +92,7 @@ def main():
                 bad += 1
                 print("!! seed", tag, st, detail)
     print("seeds:", len(seeds))
-    diffs = sorted(glob.glob(os.path.join(V, "benign", "*.diff")))
+    diffs = sorted(glob.glob(os.path.join(V, "benign", "*.diff")))   # benign/unsupported/ is not included
     with ThreadPoolExecutor(4) as ex:
         for tag, st, detail in ex.map(benign_job, diffs):
             if st != "ok":
